@@ -131,6 +131,9 @@ pub struct StreamReport {
     pub classes: BTreeMap<&'static str, u64>,
     pub known_hits: BTreeMap<&'static str, u64>,
     pub samples: Vec<Value>,
+    /// the first cases evaluated, whatever they are (fallback when a run ends before it saw a
+    /// non-trivial case, e.g. on an early violation)
+    pub first_cases: Vec<Value>,
     pub class_samples: BTreeMap<&'static str, Value>,
     pub failure: Option<Failure>,
     pub wall_s: f64,
@@ -288,6 +291,9 @@ impl Acc {
         for c in &obs.classes {
             *r.classes.entry(c).or_insert(0) += 1;
         }
+        if r.first_cases.len() < 2 {
+            r.first_cases.push(serde_json::to_value(case).unwrap_or(Value::Null));
+        }
         let need_class_sample = obs.classes.iter().any(|c| !r.class_samples.contains_key(c));
         if obs.nontrivial {
             r.nontrivial += 1;
@@ -329,6 +335,11 @@ fn merge(into: &mut StreamReport, from: StreamReport) {
     }
     for (k, v) in from.class_samples {
         into.class_samples.entry(k).or_insert(v);
+    }
+    for c in from.first_cases {
+        if into.first_cases.len() < 2 {
+            into.first_cases.push(c);
+        }
     }
     if into.failure.is_none() {
         into.failure = from.failure;
@@ -948,6 +959,16 @@ pub fn run_property(p: &Property, tier: Tier, seed: u64) -> i32 {
     for r in &reports {
         for s in r.samples.iter().take(3) {
             samples.push(json!({"stream": r.name, "case": s}));
+        }
+    }
+    if samples.is_empty() {
+        for r in &reports {
+            for c in &r.first_cases {
+                samples.push(json!({"stream": r.name, "case": c, "note": "no non-trivial case was seen before the run ended"}));
+            }
+            if let Some(f) = &r.failure {
+                samples.push(json!({"stream": r.name, "case": f.case, "note": "failing case"}));
+            }
         }
     }
     let streams_json: Vec<Value> = reports
